@@ -10,7 +10,7 @@ from vk.props.c03 import XOR_RICH
 ID = 'C06'
 RULE = ('Hypothesis-generated netlists (fork chains, both port styles, open pins/outputs, state elements) x stimuli x options. Part wave: '
         'WaveSim plain configuration vs (1) c_reuse, (2) strip_forks with zero delay on every line read by a fork and uniform capacity, '
-        '(3) WaveSimCuda incl. abuf, (4) more allocated lanes with arbitrary data in the extra lanes, (5) lane permutation, (6) c_prop(sims=k), '
+        '(3) WaveSimCuda incl. abuf, (3b) a simulator object already used with other stimuli vs a fresh one, (4) more allocated lanes with arbitrary data in the extra lanes, (5) lane permutation, (6) c_prop(sims=k), '
         '(7) delay dataset selection modes 0 (global) and 1 (per lane) vs simulating with that dataset alone (mode 2, pseudo-random picking, is not part of the statement and not exercised), (8) s_ppo_to_ppi of '
         'both classes; compared: s[3..8], s[10] at all outputs / state elements, exact equality. Part logic: LogicSim m=2/4/8 plain vs c_reuse, '
         'strip_forks, extra lanes, lane permutation on s[1]. non-trivial: circuit has a multi-output fork and >= 3 levels and the compared '
@@ -29,8 +29,9 @@ def wave_cases(draw, tier):
     waves = draw(W.input_waves(n, lanes, single_only=draw(st.booleans())))
     extra = draw(st.integers(1, 3))
     xwaves = draw(W.input_waves(n, extra, single_only=True))
+    pre = draw(W.input_waves(n, lanes))
     nds = draw(st.integers(1, 3))
-    return dict(nl=nl, lanes=lanes, waves=waves, extra=extra, xwaves=xwaves, dpool=draw(W.DELAY_POOL), cap=draw(st.sampled_from([4, 8, 16, 32])),
+    return dict(nl=nl, lanes=lanes, waves=waves, pre=pre, extra=extra, xwaves=xwaves, dpool=draw(W.DELAY_POOL), cap=draw(st.sampled_from([4, 8, 16, 32])),
                 nds=nds, dsel=draw(st.lists(st.integers(0, nds - 1), min_size=lanes, max_size=lanes)), gsel=draw(st.integers(0, nds - 1)),
                 perm=draw(st.permutations(list(range(lanes)))), k=draw(st.integers(1, lanes)),
                 ctime=draw(st.one_of(st.none(), st.integers(0, 600))), seed=draw(st.integers(0, 5)),
@@ -55,7 +56,7 @@ def prop_wave(case):
     if case['actrl']:
         actrl = np.array([list(case['actrl'][l % len(case['actrl'])]) for l in range(max(1, nlines))], dtype=np.int32)
 
-    def sim(klass=WaveSim, waves=None, sims=None, dl=None, ksims=None, seed=1, mode=None, per_lane=None, act=None, **opts):
+    def sim(klass=WaveSim, waves=None, sims=None, dl=None, ksims=None, seed=1, mode=None, per_lane=None, act=None, pre=None, **opts):
         waves = waves or case['waves']
         sims = sims or len(waves[0])
         s = klass(c, delays if dl is None else dl, sims=sims, c_caps=case['cap'], a_ctrl=act, **opts)
@@ -63,6 +64,9 @@ def prop_wave(case):
             s.simctl_int[1] = mode
         if per_lane is not None:
             s.simctl_int[0] = per_lane
+        if pre is not None:            # earlier use of the same simulator object
+            W.apply_inputs(s, b, nl, pre)
+            s.c_prop(seed=seed); s.c_to_s()
         W.apply_inputs(s, b, nl, waves)
         s.c_prop(sims=ksims, seed=seed)
         if T is None: s.c_to_s()
@@ -86,8 +90,10 @@ def prop_wave(case):
     r0 = res(base)
     labels = []
     # 1 c_reuse
-    s1 = sim(dl=d_alone, c_reuse=True)
+    s1 = sim(dl=d_alone, c_reuse=True, act=actrl)
     same(r0, res(s1), 'c_reuse on vs off')
+    if actrl is not None and not np.array_equal(np.array(s1.abuf), np.array(base.abuf)):
+        raise Violation(f'c_reuse on vs off: abuf {np.array(s1.abuf).tolist()} != {np.array(base.abuf).tolist()}')
     reused = s1.c_len < base.c_len
     # 2 strip_forks
     s2 = sim(dl=d_alone, strip_forks=True)
@@ -102,6 +108,11 @@ def prop_wave(case):
         raise Violation(f'WaveSimCuda abuf {np.array(s3.abuf).tolist()} != WaveSim abuf {np.array(base.abuf).tolist()}')
     s3b = sim(WaveSimCuda, dl=d_alone, c_reuse=True, strip_forks=True)
     same(r0, res(s3b), 'WaveSimCuda(c_reuse, strip_forks) vs WaveSim plain')
+    # 3b a simulator object that was used before with other stimuli behaves like a fresh one (both code paths, with memory reuse)
+    if case.get('pre'):
+        for klass in (WaveSim, WaveSimCuda):
+            same(r0, res(sim(klass, dl=d_alone, pre=case['pre'])), f'{klass.__name__} used before vs fresh')
+        same(r0, res(sim(dl=d_alone, pre=case['pre'], c_reuse=True, strip_forks=True)), 'WaveSim(c_reuse, strip_forks) used before vs fresh')
     # 4 extra lanes
     wx = [case['waves'][k] + case['xwaves'][k] for k in range(len(case['waves']))]
     s4 = sim(waves=wx, dl=d_alone)
@@ -160,7 +171,8 @@ def logic_cases(draw, tier):
     rows = draw(S.codes(n, sims, alpha))
     extra = draw(st.integers(1, 9))
     xrows = draw(S.codes(n, extra, alpha))
-    return dict(nl=nl, m=m, sims=sims, stim=rows, extra=extra, xstim=xrows, perm=draw(st.permutations(list(range(sims)))),
+    prerows = draw(S.codes(n, sims, alpha))
+    return dict(nl=nl, m=m, sims=sims, stim=rows, pre=prerows, extra=extra, xstim=xrows, perm=draw(st.permutations(list(range(sims)))),
                 fill=draw(st.integers(0, 3)))
 
 
@@ -173,14 +185,15 @@ def prop_logic(case):
     in_rows = [b.s_pos(n) for n in b.pi] + [b.s_pos(n) for n in b.st]
     out_rows = [b.s_pos(n) for n in b.po] + [b.s_pos(n) for k, n in enumerate(b.st) if nl['st'][k]['d'] is not None]
 
-    def sim(stim, **opts):
+    def sim(stim, pre=None, **opts):
         n = len(stim[0])
         s = LogicSim(c, n, m=m, **opts)
-        mv = np.full((s_len, n), case['fill'], dtype=np.uint8)
-        for k, r in enumerate(in_rows):
-            mv[r] = stim[k]
-        s.s[0] = pack_bp(mv)
-        s.s_to_c(); s.c_prop(); s.c_to_s()
+        for st_ in ([pre] if pre is not None else []) + [stim]:
+            mv = np.full((s_len, n), case['fill'], dtype=np.uint8)
+            for k, r in enumerate(in_rows):
+                mv[r] = st_[k]
+            s.s[0] = pack_bp(mv)
+            s.s_to_c(); s.c_prop(); s.c_to_s()
         return s, unpack_bp(s.s[1], n)[out_rows]
 
     def same(a, b_, what):
@@ -202,6 +215,9 @@ def prop_logic(case):
     wp = [[case['stim'][k][p] for p in perm] for k in range(len(case['stim']))]
     _, r5 = sim(wp)
     same(r0[:, perm], r5, 'lane permutation')
+    if case.get('pre'):
+        _, r6 = sim(case['stim'], pre=case['pre'], c_reuse=True)
+        same(r0, r6, 'simulator used before (c_reuse) vs fresh')
     reused = s1.c_len < base.c_len
     stripped = len(s2.ops) < len(base.ops)
     multi_fork = any(len(n.outs) > 1 for n in c.forks.values())
